@@ -143,6 +143,33 @@ def suite_recv(ctx):
                     f'{together.tolist()}, one by one {alone.tolist()}',
                     {'azimuth': az, 'elevation': el, 'method': method,
                      'shape': grid.shape_cells})
+        # a receiver carpet: coordinates with more than one dimension
+        # (x[:, None], y[None, :]) of a non-square layout, some positions in
+        # the outermost cells (NaN)
+        cx = np.array([float(grid.nodes_x[0] + (grid.nodes_x[-1] -
+                       grid.nodes_x[0])*u) for u in (0.02, 0.35, 0.6, 0.81)])
+        cy = np.array([float(grid.nodes_y[1] + (grid.nodes_y[-2] -
+                       grid.nodes_y[1])*u) for u in (0.15, 0.5, 0.9)])
+        cz = float(grid.nodes_z[1] + (grid.nodes_z[-2]-grid.nodes_z[1])*0.4)
+        for method in ('linear', 'cubic'):
+            with warnings.catch_warnings():
+                warnings.simplefilter('ignore')
+                carpet = np.asarray(fields.get_receiver(
+                    f, (cx[:, None], cy[None, :], cz, az[0], el[0]),
+                    method=method))
+                single = np.array([[complex(fields.get_receiver(
+                    f, (a, b, cz, az[0], el[0]), method=method))
+                    for b in cy] for a in cx])
+            if carpet.shape != single.shape or not np.allclose(
+                    carpet, single, rtol=1e-12, atol=1e-13, equal_nan=True):
+                batch_bad.append(('carpet', method))
+                ctx.violation(
+                    'receiver-depends-on-companions',
+                    f'get_receiver({method}) for a {cx.size} x {cy.size} '
+                    f'carpet of receivers (x[:, None], y[None, :]) gives '
+                    f'{carpet.tolist()}, one by one {single.tolist()}',
+                    {'azimuth': az[0], 'elevation': el[0], 'method': method,
+                     'shape': grid.shape_cells, 'layout': 'carpet'})
         ctx.count(key=('recv-batch', t, tuple(az), tuple(el)))
     out = common.run_driver(lines, jobs=8)
     bad = []
